@@ -233,7 +233,7 @@ def lib_spans(canon, ntoks):
             rows.append((n, (lo, hi), kids))
         return None if lo is None else (lo, hi)
     walk(t)
-    if len(leaves) != ntoks:
+    if ntoks is not None and len(leaves) != ntoks:
         return None
     return {s for _, s, _ in rows if s[1] - s[0] >= 2}, leaves, rows, t
 
@@ -683,7 +683,85 @@ def work_scripted(item):
     return viol, counts, nontriv
 
 
+# ---------------------------------------------------------------------------------------------
+# identifiers that look like chemical element symbols are ordinary identifiers unless the expression is taken for chemistry
+
+ELEMENT_OPERANDS = [("P", "N", "S", "K"), ("C", "N", "1", "O"), ("K", "I", "3", "U"), ("C", "O", "2", "H"), ("H", "O", "H", "O"), ("N", "a", "O", "b"),
+                    ("B", "C", "N", "F"), ("V", "W", "Y", "I"), ("Na", "Cl", "K", "Br"), ("c", "n", "o", "s")]
+NEUTRAL_OPERANDS = ("a", "b", "k", "n")
+BOND_LIKE = ["-", "=", ":", "\u22c5", "\u2261", "+", "\u00d7", "/", "\u2212", "<", ","]
+LETTER_EMBED = {
+    "top": lambda k: row(*k),
+    "radicand+x": lambda k: row(el("msqrt", *k), mo("+"), mi("x")),
+    "radicand": lambda k: el("msqrt", *k),
+    "numerator": lambda k: el("mfrac", row(*k), mi("x")),
+    "eq-radicand": lambda k: row(mi("y"), mo("="), el("msqrt", *k)),
+    "superscript": lambda k: el("msup", mi("z"), row(*k)),
+    "cell": lambda k: el("mtable", el("mtr", el("mtd", *k), el("mtd", mi("z")))),
+    "paren": lambda k: row(mi("x"), mo("+"), mo("("), row(*k), mo(")")),
+}
+
+
+def letter_rows(tier):
+    """(operand tuple index, operator tuple): x op x op x for every ordered pair of the bond-like operators, x op x op x op x for every
+    triple over the five operators the chemistry pass treats as bonds"""
+    import itertools
+    out = []
+    for oi in range(len(ELEMENT_OPERANDS)):
+        for ops in itertools.product(BOND_LIKE, repeat=2):
+            out.append((oi, ops))
+        for ops in itertools.product(BOND_LIKE[:5] if tier == "quick" else BOND_LIKE[:8], repeat=3):
+            out.append((oi, ops))
+    return out
+
+
+def work_letters(item):
+    """differential: unless the library marks the result as chemistry, the row must be bracketed exactly like the same row over a b k n"""
+    where, rows = item
+    mc = mcx.worker_mc()
+    setup = [["rules_dir", mcx.RULES]]
+
+    def toks_of(operands, ops):
+        t = []
+        for i, op in enumerate(ops):
+            t += [("x", operands[i]), ("o", op)]
+        return t + [("x", operands[len(ops)])]
+    docs = []
+    for oi, ops in rows:
+        docs.append(terms.doc(LETTER_EMBED[where](render(toks_of(ELEMENT_OPERANDS[oi], ops)))))
+        docs.append(terms.doc(LETTER_EMBED[where](render(toks_of(NEUTRAL_OPERANDS, ops)))))
+    _, res = mc.run_cases(setup, [[["mathml", d]] for d in docs])
+    viol, counts, nontriv = [], {"evaluations": 0, "letter_rows_compared": 0, "letter_rows_taken_for_chemistry": 0, "skipped_panics": 0, "rejected": 0}, []
+    for j, (oi, ops) in enumerate(rows):
+        re_, rn = res[2 * j][0], res[2 * j + 1][0]
+        counts["evaluations"] += 2
+        if is_panic(re_) or is_panic(rn):
+            counts["skipped_panics"] += 1
+            continue
+        if not is_ok(re_) or not is_ok(rn):
+            counts["rejected"] += 1
+            continue
+        ce, cn = val(re_), val(rn)
+        if any(a in ce for a in ("data-chem-formula=", "data-chem-equation=", "data-maybe-chemistry=", "data-chemical-bond=")):     # marks the library leaves on what it reads as chemistry
+            counts["letter_rows_taken_for_chemistry"] += 1
+            continue
+        se, sn_ = lib_spans(ce, None), lib_spans(cn, None)
+        counts["letter_rows_compared"] += 1
+        nontriv.append(hash((where, oi, ops)))
+        sig = " ".join(t[1] for t in toks_of(ELEMENT_OPERANDS[oi], ops))
+        replay = {"where": where, "family": "element-letters", "row": [oi, list(ops)]}
+        kinds = "".join("U" if x[:1].isupper() and len(x) == 1 else "u" if x[:1].isupper() else "d" if x.isdigit() else "l" for x in ELEMENT_OPERANDS[oi][:len(ops) + 1])
+        if len(se[1]) != len(sn_[1]):
+            viol.append((f"C03|element-letters|tokens-differ|{where}|{kinds}", f"[{where}] row {sig!r}: {len(se[1])} tokens, the same row over a b k n has {len(sn_[1])}", replay))
+        elif se[0] != sn_[0]:
+            opsig = " ".join(ops)
+            viol.append((f"C03|element-letters|bracketing|{where}|{opsig}|{kinds}", f"[{where}] row {sig!r} is not taken for chemistry but is bracketed {sorted(se[0])}, the same row over a b k n {sorted(sn_[0])}", replay))
+    return viol, counts, nontriv
+
+
 def _dispatch(job):
+    if job[0] == "LETTERS":
+        return work_letters(job[1:])
     if job[0] == "SCRIPTED":
         return work_scripted(job[1:])
     return work_fences(job[1:]) if job[0] == "FENCES" else work(job)
@@ -763,7 +841,9 @@ def confirm(replay, verbose=False):
     old = mcx._worker_mc
     mcx._worker_mc = mc
     try:
-        if replay.get("family") == "scripted-fence":
+        if replay.get("family") == "element-letters":
+            v, _, _ = work_letters((replay["where"], [(replay["row"][0], tuple(replay["row"][1]))]))
+        elif replay.get("family") == "scripted-fence":
             v, _, _ = work_scripted((replay["where"], [tuple(replay["row"])]))
         elif replay.get("family") == "fence-pair":
             v, _, _ = work_fences((replay["where"], [tuple(replay["pair"])]))
@@ -816,6 +896,11 @@ def main(tier):
     run.count("scripted_fence_rows_per_embedding", len(sr))
     for where in (EMBED if tier == "thorough" else ("top", "radicand", "fenced-arg")):
         jobs.append(("SCRIPTED", where, sr))
+    lr = letter_rows(tier)
+    run.count("element_letter_rows_per_embedding", len(lr))
+    for where in LETTER_EMBED:
+        for i in range(0, len(lr), 600):
+            jobs.append(("LETTERS", where, lr[i:i + 600]))
     for viol, counts, nontriv in mcx.pmap(_dispatch, jobs):
         run.merge_violations(viol)
         run.merge_counts(counts)
@@ -825,7 +910,7 @@ def main(tier):
         rule=f"dictionary of {len(d)} operators read from src/operator-info.in. Rows: a op1 b op2 k for " + ("every infix operator" if tier == "thorough" else "every 4th infix operator") +
              " against one representative per (forms, priorities) class and all representative pairs; every prefix and postfix operator alone and against infix representatives; "
              "triples over " + ("all" if tier == "thorough" else "every 3rd") + f" infix representatives; prefix/postfix/infix mixes; every row of <= {5 if tier == 'quick' else 6} tokens over a 12-symbol core "
-             "(operands, + − × = , ! ( ) - and unbalanced fences); parenthesised rows; 7 fence templates x ( ) [ ] { } with each closing fence as the base of msub/msup/msubsup/mmultiscripts (invariants only); function application and implied multiplication next to every infix class and every operator binding tighter than application (invariants only); a sample of these re-embedded in 6 two-dimensional positions. Exact comparison for rows whose "
+             "(operands, + − × = , ! ( ) - and unbalanced fences); parenthesised rows; 7 fence templates x ( ) [ ] { } with each closing fence as the base of msub/msup/msubsup/mmultiscripts (invariants only); function application and implied multiplication next to every infix class and every operator binding tighter than application (invariants only); a sample of these re-embedded in 6 two-dimensional positions; rows over identifiers that look like element symbols (10 operand sets x all pairs / triples of bond-like operators x 8 embeddings), which unless the result is marked as chemistry must be bracketed exactly like the same row over a b k n. Exact comparison for rows whose "
              "assignment of dictionary forms is unique; structural invariants on every row of every output. distinct_nontrivial = distinct rows of the exact class compared",
         assumptions=["associativity among different operators of equal priority is not given by the dictionary and is not compared",
                      "rows where a prefix priority ties with an infix/postfix priority, fence/ambiguous entries, pseudo-script characters and explicitly written invisible operators (which carry the function-application / trig-argument / mixed-number heuristics) are outside the exact class (invariants only)",
